@@ -83,6 +83,9 @@ def _fresh_child(case, wfd):
     from jedi.api.environment import SameEnvironment
     if case.get('cache_dir'):
         jedi.settings.cache_directory = case['cache_dir']
+    else:
+        from harness.core import private_cache
+        private_cache()
     proj = jedi.Project(case['project']) if case.get('project') else jedi.Project('/nonexistent_verif_cache')
     s = jedi.Script(case['src'], path=case.get('path'), project=proj, environment=SameEnvironment())
     res = answers(s, case['queries'])
@@ -140,6 +143,8 @@ def run_buffer_history(job):
     import parso.cache
     from jedi.api.environment import SameEnvironment
     from jedi.inference import filters
+    from harness.core import private_cache
+    private_cache()
     env = SameEnvironment()
     proj = jedi.Project(job.get('project') or '/nonexistent_verif_cache')
     items = {}
